@@ -78,6 +78,21 @@ class Prop:
                 for v in subs:
                     if v != l[i] and v != 42:
                         cases.append(('subst@%d' % i, l[:i] + bytes([v]) + l[i + 1:]))
+        # structural bytes at EVERY body position of many sentences (a substituted delimiter must not let a
+        # corrupted sentence through: the position matters, e.g. where the XOR of the prefix happens to be 0)
+        special = [0x5c, 0x2c, 0x21, 0x24, 0x0d, 0x0a, 0x20, 0x09, 0x00, 0x7f, 0x80, 0xff, 0x41, 0x30]
+        extra = []
+        for k in range(40 if ctx.tier == 'quick' else 400):
+            c = rng.choice(['MessageType1', 'MessageType18', 'MessageType5', 'MessageType27', 'MessageType9'])
+            ls = gen.render(gen.payload_bits(rng, c), talker=rng.choice(nmea_cases.TALKERS) + rng.choice(['VDM', 'VDO']),
+                            chan=rng.choice('AB'))
+            extra.append(ls[0])
+        for l in extra:
+            star = l.rfind(b'*')
+            for i in range(1, star):
+                for v in special:
+                    if v != l[i]:
+                        cases.append(('subst@%d' % i, l[:i] + bytes([v]) + l[i + 1:]))
         lines = ['parse %s' % l.hex() for _, l in cases]
         outs = ctx.corr(lines, impl.step, 'parse')
         for (label, l), o in zip(cases, outs):
@@ -99,10 +114,13 @@ class Prop:
                         repl = bytes([p[j] ^ 1]) if (p[j] ^ 1) not in (42, 44) else bytes([p[j] ^ 2])
                         p = p[:j] + repl + p[j + 1:]
                     ps.append(p)
-                for strict in (0, 1):
-                    for cmd in ('assemble', 'decode'):
-                        mlines.append('%s %d %s' % (cmd, strict, ' '.join(p.hex() for p in ps)))
-                        meta.append((cmd, strict, mask, ps))
+                import itertools
+                for order in itertools.permutations(range(n)):       # decode() takes the parts in any order
+                    qs = [ps[i] for i in order]
+                    for strict in (0, 1):
+                        for cmd in ('assemble', 'decode'):
+                            mlines.append('%s %d %s' % (cmd, strict, ' '.join(p.hex() for p in qs)))
+                            meta.append((cmd, strict, mask, qs))
         outs = ctx.corr(mlines, impl.step, 'assemble/decode')
         res = {(cmd, strict, tuple(ps)): o for (cmd, strict, mask, ps), o in zip(meta, outs)}
         for (cmd, strict, mask, ps), o in zip(meta, outs):
@@ -136,8 +154,20 @@ class Prop:
             if inp.get('case', '').startswith('subst') and not o.startswith('ERR:') and field(o, 'valid') == '1':
                 ctx.fail('single-byte corruption neither rejected nor flagged', inp, '', o[:200], {'kind': 'subst'})
         else:
+            ps = [bytes.fromhex(x) for x in inp['lines']]
+            valids = []
+            for p in ps:
+                po = impl.step('parse %s' % p.hex())
+                valids.append(None if po.startswith('ERR:') else field(po, 'valid') == '1')
+            if None in valids:
+                return True
             o = impl.step('%s %d %s' % (inp['cmd'], inp['strict'], ' '.join(inp['lines'])))
+            lenient = impl.step('%s 0 %s' % (inp['cmd'], ' '.join(inp['lines'])))
             print('observed:', o[:300])
+            if inp['cmd'] == 'assemble' and not inp['strict'] and not o.startswith('ERR:'):
+                return (field(o, 'valid') == '1') == all(valids)
+            if inp['strict']:
+                return o == ('ERR:InvalidNMEAChecksum' if not all(valids) else lenient)
             return True
         return not ctx.failures
 
